@@ -1,6 +1,6 @@
 """C13: trash-restore offers the right entries and restores exactly the
 indices chosen."""
-from . import restore, options
+from . import restore, options, purge, readers
 
 PROPERTY = 'C13'
 LEVEL_NOTE = ('scope predicate == component-boundary spec for every pair of '
@@ -12,6 +12,8 @@ LEVEL_NOTE = ('scope predicate == component-boundary spec for every pair of '
               'most 2 parts with ranges of at most 2 elements: that bound is a '
               'BOUNDED stand-in, the rest is unbounded')
 EXPECTED = [
+    'restore-reader/offered-iff-well-formed',
+    'trashcli.lib.path_of_backup_copy.path_of_backup_copy/post/payload-is-files-slash-stem',
     'restore-options/overwrite-only-with-its-flag',
     'restore-options/sort-key-maps-to-its-mode',
     'restore-options/path-is-the-operand-under-the-current-directory-normalised',
@@ -31,6 +33,8 @@ EXPECTED = [
 
 
 def build(S, tier, seed):
+    purge.leaf_vcs(S)           # parse_path, parse_deletion_date, path_of_backup_copy
+    readers.restore_reader_vc(S)  # which entries are read, with which payload
     S.verify(restore.ScopeMatch())
     restore.restore_one_vc(S)
     restore.parse_part_vc(S)
